@@ -156,6 +156,27 @@ fn create_next_state<C: ContentAddrStore>(
     Ok(next_state)
 }
 
+/// `Transaction::total_outputs` sums the outputs of each denomination, and the fee for MEL, with plain `+`.
+/// `is_well_formed` only bounds each value and the fee by `MAX_COINVAL` and the number of outputs by 255, which
+/// still lets a total reach 2^128. Such a transaction can never be balanced by real coins; it is rejected here,
+/// before anything sums its outputs.
+fn output_totals_fit(tx: &Transaction) -> bool {
+    let mut totals: HashMap<Denom, u128> = HashMap::new();
+    for output in tx.outputs.iter() {
+        let total = totals.entry(output.denom).or_insert(0);
+        match total.checked_add(output.value.0) {
+            Some(sum) => *total = sum,
+            None => return false,
+        }
+    }
+    totals
+        .get(&Denom::Mel)
+        .copied()
+        .unwrap_or(0)
+        .checked_add(tx.fee.0)
+        .is_some()
+}
+
 /// This collects all input and output coins referenced by the given transactions while filtering out any coins set to be destroyed.
 /// This iterates over the given transactions and:
 /// - does some light (incomplete) validation on the transaction
@@ -171,6 +192,9 @@ fn load_relevant_coins<C: ContentAddrStore>(
     // add the ones created in this batch
     for tx in txx {
         if !tx.is_well_formed() {
+            return Err(StateError::MalformedTx);
+        }
+        if !output_totals_fit(tx) {
             return Err(StateError::MalformedTx);
         }
 
